@@ -14,7 +14,7 @@ RULE = ("footprints (single pixels, scattered pixels, small discs at random posi
         "candidates; the recorded sampling window must equal the Lean window choice computed from hpgeom's "
         "coverage-pixel centres; for the fast generator the recorded choice / randint draws are mapped through the "
         "Lean child-pixel arithmetic and must give the pixels of the returned positions; a call that does not return "
-        "within 30 s is reported as a hang (a violation, not a timeout); non-trivial = footprint touches lon 0 or a pole")
+        "within 20 s (or 5e7 draws) is reported as a hang (a violation, not a timeout); non-trivial = footprint touches lon 0 or a pole")
 ASSUMPTIONS = ["hpgeom pixel centres / angle_to_pixel; the angular extent of a coverage pixel is bounded by "
                "2*resolution/sin(theta) (geometry, not proved)",
                "the starvation clause is decided deterministically only through the window logic plus the fixed "
